@@ -167,6 +167,21 @@ def run(prog: Program, rep: Report, tier: str) -> None:
                 return cfgf.nodes[n].kind == 'stmt' and any(isinstance(x, ast.Call) and callee_last(x) == 'update' for x in ast.walk(st))
             okp, _ = cfgf.all_paths_pass(be, upd, targets={hdr, cfgf.exit})
             rep.ob('C19-D3 consumers', f.fq(), f"values of component {comp} are stored before the next component", f.loc(l), okp, '' if okp else 'an iteration can finish without storing the component\'s values')
+            # every component is processed: nothing leaves the loop early (a `break` once the start symbol's component is done
+            # leaves every nonterminal in a later component -- the ones the start symbol does not reach -- without a value)
+            body = cfgf.loop_body.get(hdr, set())
+            inner_hdrs = {m for m in body if cfgf.nodes[m].kind in ('for', 'while') or (cfgf.nodes[m].kind == 'test' and isinstance(cfgf.nodes[m].stmt, ast.While))}
+            def leaves(m):
+                if cfgf.nodes[m].kind == 'return':
+                    return True
+                if cfgf.nodes[m].kind == 'break':
+                    # a break of an inner loop stays inside this iteration
+                    return not any(m in cfgf.loop_body.get(h, set()) for h in inner_hdrs)
+                return False
+            early = [m for m in body if leaves(m)]
+            rep.ob('C19-D3 consumers', f.fq(), f"for {comp} in ...: no component is skipped by leaving the loop early", f.loc(l), not early,
+                   'the loop runs over every component' if not early else
+                   f"{cfgf.describe(early[0])} ends the loop before the remaining components are processed: their nonterminals receive no value")
             # what is computed for a component is computed from that component: no flag / option / result left over from the previous one
             from ..rules.loopstate import check_iteration_local
             n_state += check_iteration_local(rep, 'C19-D3 component-local state', f, l)
